@@ -19,10 +19,10 @@ import (
 
 func init() {
 	register(&propSpec{
-		ID:    "C06",
-		Level: "other",
-		Run:   runC06,
-		Explanation: "Per-transition obligations on MVP-7.0, 7.1 and 8.0: R06.1 the per-core line state table is written only by the state setter (called only inside the completion closures handed out with a lock) and by the command-completion callback (to Invalid); R06.2 the transition table extracted from the read-lock / write-lock functions and the request builders equals the MSI table (read@I: shared lock, write-back from a Modified holder, then Shared; read@S: shared lock; read@M: exclusive lock; write@I: exclusive, write-back M / evict S, then Modified; write@S: exclusive, invalidate others, then Modified; write@M: exclusive); R06.3 a write-back snoop writes the line to the next level before removing it from L1 and before completing, an evict snoop removes then completes; R06.5 every per-line table is keyed through one alignment level and L1 insertions are presence-guarded; R06.7 the base a line is inserted under in a data cache comes from the alignment function of that cache's line size or from a resident line's boundary (lines are size-aligned); R06.8 a line is inserted in L1 only after a presence test of its base returned false (never two copies of one line); R06.6 per-line lock counters cannot go negative (acquire/release kinds pair; recorded handles are released with the kind they were acquired with; flush deletes from the table it ranges over). The per-cycle invariants under all request interleavings are NOT decided.",
+		ID:          "C06",
+		Level:       "other",
+		Run:         runC06,
+		Explanation: "Per-transition obligations on MVP-7.0, 7.1 and 8.0: R06.1 the per-core line state table is written only by the state setter (called only inside the completion closures handed out with a lock) and by the command-completion callback (to Invalid); R06.2 the transition table extracted from the read-lock / write-lock functions and the request builders equals the MSI table (read@I: shared lock, write-back from a Modified holder, then Shared; read@S: shared lock; read@M: exclusive lock; write@I: exclusive, write-back M / evict S, then Modified; write@S: exclusive, invalidate others, then Modified; write@M: exclusive); R06.3 a write-back snoop writes the line to the next level before removing it from L1 and before completing, an evict snoop removes then completes; R06.5 every per-line table is keyed through one alignment level and L1 insertions are presence-guarded; R06.7 the base a line is inserted under in a data cache comes from the alignment function of that cache's line size or from a resident line's boundary (lines are size-aligned); R06.8 a line is inserted in L1 only after a presence test of its base returned false (never two copies of one line); R06.9 a line fill pads exactly the bytes outside the memory image (the index is compared with the image length itself); R06.10 a Modified holder of the line is always asked to write back and the request is among the pendings the requester waits for; R06.6 per-line lock counters cannot go negative (acquire/release kinds pair; recorded handles are released with the kind they were acquired with; flush deletes from the table it ranges over). The per-cycle invariants under all request interleavings are NOT decided.",
 		Assumptions: []string{"request interleavings are not explored"},
 		Trusted:     []string{"go/types", "the MSI table in checker/c06.go", "address provenance engine"},
 	})
@@ -61,6 +61,8 @@ func runC06(r *Run) {
 	r.floor("R06.2", 27)
 	r.floor("R06.3", 8)
 	r.floor("R06.5", 12)
+	r.floor("R06.9", 3)
+	r.floor("R06.10", 9)
 	r.floor("R06.7", 3)
 	r.floor("R06.8", 3)
 	r.floor("R06.6", 30)
@@ -110,6 +112,7 @@ func runC06(r *Run) {
 		ruleL1Insertions(r, v, byVar, pe)
 		_ = info
 	}
+	ruleLineFillExact(r, "R06.9")
 	// R06.6 = R07.4
 	before := len(r.Obs)
 	ruleLockDiscipline(r, "R06.6")
@@ -290,6 +293,16 @@ func ruleTransitionTable(r *Run, v *variant, states *types.Var) {
 		return req
 	}
 	builderClass := map[*types.Func]string{}
+	{
+		var bfds []*ast.FuncDecl
+		for fn := range builders {
+			if fd, _ := w.FuncDecl(fn); fd != nil {
+				bfds = append(bfds, fd)
+			}
+		}
+		sort.Slice(bfds, func(i, j int) bool { return bfds[i].Pos() < bfds[j].Pos() })
+		ruleModifiedHolderAsked(r, "R06.10", v, bfds)
+	}
 	for fn, b := range builders {
 		s, m := kindOf(b.sends[1]), kindOf(b.sends[2])
 		if _, has := b.sends[1]; !has {
@@ -608,5 +621,142 @@ func ruleL1Insertions(r *Run, v *variant, byVar map[*types.Var]*cacheInfo, pe *p
 				return true
 			})
 		}
+	}
+}
+
+// ruleLineFillExact (R06.9): a line fill pads exactly the bytes that lie outside the
+// memory image: the index is compared with len(image) itself. A stricter bound
+// (len-1, a cached `last`) pads a byte that exists: a core then holds a Shared line
+// that differs from memory.
+func ruleLineFillExact(r *Run, rule string) {
+	w := r.W
+	for _, v := range variants(w) {
+		if v.pkg == nil || !v.pipelined() {
+			continue
+		}
+		info := v.info
+		for _, f := range v.pkg.Syntax {
+			for _, d := range f.Decls {
+				fd, ok := d.(*ast.FuncDecl)
+				if !ok || fd.Body == nil {
+					continue
+				}
+				reads := false
+				ast.Inspect(fd.Body, func(n ast.Node) bool {
+					if ix, ok := n.(*ast.IndexExpr); ok && ctxFieldWritten(info, ix.X) == "Memory" {
+						// a read (not the target of an assignment)
+						reads = true
+					}
+					return true
+				})
+				if !reads || fd.Type.Results == nil {
+					continue
+				}
+				// comparisons with an upper bound: one side must be len(<image>) itself
+				n := 0
+				var inexact []string
+				ast.Inspect(fd.Body, func(m ast.Node) bool {
+					b, ok := m.(*ast.BinaryExpr)
+					if !ok || (b.Op != token.GEQ && b.Op != token.LSS && b.Op != token.GTR && b.Op != token.LEQ) {
+						return true
+					}
+					// skip sign tests and loop bounds over constants / the line size
+					if c, ok := constInt64(info.Types[b.Y]); ok && c == 0 {
+						return true
+					}
+					isLenOfImage := func(e ast.Expr) bool {
+						call, ok := ast.Unparen(e).(*ast.CallExpr)
+						if !ok || len(call.Args) != 1 {
+							return false
+						}
+						id, ok := call.Fun.(*ast.Ident)
+						return ok && id.Name == "len" && ctxFieldWritten(info, call.Args[0]) == "Memory"
+					}
+					mentionsImageLen := func(e ast.Expr) bool {
+						found := false
+						ast.Inspect(e, func(k ast.Node) bool {
+							if ex, ok := k.(ast.Expr); ok && isLenOfImage(ex) {
+								found = true
+							}
+							if id, ok := k.(*ast.Ident); ok {
+								// a local defined from len(image)
+								if o := info.Uses[id]; o != nil {
+									ast.Inspect(fd.Body, func(q ast.Node) bool {
+										if as, ok := q.(*ast.AssignStmt); ok && len(as.Lhs) == 1 && len(as.Rhs) == 1 {
+											if l, ok := as.Lhs[0].(*ast.Ident); ok && (info.Defs[l] == o || info.Uses[l] == o) {
+												ast.Inspect(as.Rhs[0], func(z ast.Node) bool {
+													if ez, ok := z.(ast.Expr); ok && isLenOfImage(ez) {
+														found = true
+													}
+													return true
+												})
+											}
+										}
+										return true
+									})
+								}
+							}
+							return true
+						})
+						return found
+					}
+					if !mentionsImageLen(b.X) && !mentionsImageLen(b.Y) {
+						return true
+					}
+					n++
+					// exact forms: idx >= len(image), idx < len(image), len(image) <= idx, len(image) > idx
+					exact := (b.Op == token.GEQ || b.Op == token.LSS) && isLenOfImage(b.Y) || (b.Op == token.LEQ || b.Op == token.GTR) && isLenOfImage(b.X)
+					if !exact {
+						inexact = append(inexact, types.ExprString(b))
+					}
+					return true
+				})
+				if n == 0 {
+					continue
+				}
+				r.check(len(inexact) == 0, rule, fmt.Sprintf("%s.%s:image-bound", v.rel, declName(fd)), fd.Pos(), "a line fill compares the byte index with the length of the memory image itself (index >= len pads, index < len reads): %d comparisons, inexact: %v", n, inexact)
+			}
+		}
+	}
+}
+
+// ruleModifiedHolderAsked (R06.10): in the request builders, a Modified holder of the
+// line in another core is ALWAYS asked to write back and that request is among the
+// pendings the requester waits for. A builder that skips it under some condition (a
+// request already in flight) lets the requester fetch from the next level before the
+// owner's bytes arrive.
+func ruleModifiedHolderAsked(r *Run, rule string, v *variant, builders []*ast.FuncDecl) {
+	info := v.info
+	for _, fd := range builders {
+		ast.Inspect(fd.Body, func(n ast.Node) bool {
+			cc, ok := n.(*ast.CaseClause)
+			if !ok || len(cc.List) != 1 {
+				return true
+			}
+			tv := info.Types[cc.List[0]]
+			if tv.Value == nil {
+				return true
+			}
+			// the Modified case of a switch over the holder's state: identified by the constant's name
+			id, ok := ast.Unparen(cc.List[0]).(*ast.Ident)
+			if !ok || !strings.EqualFold(id.Name, "modified") {
+				return true
+			}
+			// its first statement must be the unconditional append of a sent command
+			good := false
+			if len(cc.Body) >= 1 {
+				if as, ok := cc.Body[0].(*ast.AssignStmt); ok && len(as.Rhs) == 1 {
+					if call, ok := as.Rhs[0].(*ast.CallExpr); ok {
+						if f, ok := call.Fun.(*ast.Ident); ok && f.Name == "append" && len(call.Args) == 2 {
+							if _, ok := ast.Unparen(call.Args[1]).(*ast.CallExpr); ok {
+								good = true
+							}
+						}
+					}
+				}
+			}
+			r.check(good, rule, fmt.Sprintf("%s.%s:modified-holder-asked", v.rel, declName(fd)), cc.Pos(), "a Modified holder of the line is asked unconditionally and the request is among the pendings the requester waits for")
+			return true
+		})
 	}
 }
